@@ -18,8 +18,8 @@ package main
 //
 //	msg (fields separated by `;`)
 //	  send;<to>;<amt>;<den>          to = u0|u1|u2 ; 1 <= amt <= 1000000 ; den = u (ugnot) | f (a denom nobody holds)
-//	  add;<slot>                     slot = a|b|c|h   (deploys the slot's fixed realm)
-//	  call;<slot>;<fn>;<k>;<v>;<dep> slot a|b|c: fn = set|del|inc|fail|sum ; slot h: fn = both|half|grab
+//	  add;<slot>                     slot = a|b|c|h|p (deploys the slot's fixed realm)
+//	  call;<slot>;<fn>;<k>;<v>;<dep> slot a|b|c|p: fn = set|del|inc|fail|sum ; slot h: fn = both|half|grab
 //	                                 0 <= k <= 7 ; -999 <= v <= 999 ; dep = - | d (max_deposit 1ugnot; only with slot b, fn set)
 //	  run;<script>;<k>;<v>           script = ab|fail|noop|read
 
@@ -119,13 +119,13 @@ func pMsg(s string) (msgSpec, bool) {
 		m.to, m.amt, m.den = f[1], a, f[3][0]
 		return m, true
 	case "add":
-		if len(f) != 2 || len(f[1]) != 1 || !strings.ContainsRune("abch", rune(f[1][0])) {
+		if len(f) != 2 || len(f[1]) != 1 || !strings.ContainsRune("abchp", rune(f[1][0])) {
 			return m, false
 		}
 		m.slot = f[1][0]
 		return m, true
 	case "call":
-		if len(f) != 6 || len(f[1]) != 1 || !strings.ContainsRune("abch", rune(f[1][0])) {
+		if len(f) != 6 || len(f[1]) != 1 || !strings.ContainsRune("abchp", rune(f[1][0])) {
 			return m, false
 		}
 		m.slot, m.fn = f[1][0], f[2]
